@@ -1436,6 +1436,15 @@ func (v *VMValue) ArrayRepeatTimesEx(ctx *Context, times *VMValue) *VMValue {
 	case VMTypeInt:
 		times, _ := times.ReadInt()
 		ad, _ := v.ReadArray()
+		if times < 0 {
+			ctx.Error = errors.New("数组重复次数不能为负数")
+			return nil
+		}
+		if len(ad.List) > 0 && times > 512 {
+			// 先检查次数，避免乘法溢出后绕过下面的长度检查
+			ctx.Error = errors.New("不能一次性创建过长的数组")
+			return nil
+		}
 		length := IntType(len(ad.List)) * times
 
 		if length > 512 {
